@@ -290,7 +290,9 @@ func (ctx *Ctx) CI1() string {
 		builderPlumbing(ctx, scratch, "CI")
 		configFieldOwnership(ctx, scratch, "CI")
 		for _, m := range vf.Mismatches["Origins"] {
-			if m.Missing {
+			// only what CI-1/CI-2 rest on: the `*` element's errors, and the
+			// allow-all flag being set by `*` elements only
+			if m.Missing && (m.V["W"] || m.Kind == "flag") {
 				scratch.fail("CI", "origin decision table", "", m.Detail)
 			}
 		}
